@@ -144,6 +144,8 @@ func c12Scenarios(thorough bool) []*c12Scn {
 		}
 		add(d+"-resume-p4", "resume", true, e2eCfg{upload: up, proto: 4, overwrite: true})
 		add(d+"-resume-p3-bin", "resume", false, e2eCfg{upload: up, proto: 3, overwrite: true, binary: true})
+		add(d+"-resume-p3", "resume", true, e2eCfg{upload: up, proto: 3, overwrite: true}) // the SIZE line inside the hash exchange
+		out[len(out)-1].mustOnly = true
 		add(d+"-archive-p4", "archive", true, e2eCfg{upload: up, proto: 4, directory: true, compress: "no"})
 		add(d+"-dir-p3", "dirv3", false, e2eCfg{upload: up, proto: 3, directory: true})
 		add(d+"-dir-p2", "dirv3", false, e2eCfg{upload: up, proto: 2, directory: true})
@@ -288,6 +290,7 @@ type c12Mutant struct {
 	whole   []byte   // or: the whole mutated wire (baseline, archive mutants)
 	must    bool     // always part of the quick tier
 	amplify bool     // decompression bomb: keyed hostile-amplify:...
+	pair    string   // two fields replaced consistently: keyed hostile-pair:<a>-<b>:<value>:<role>
 	result  c12Result
 }
 
@@ -312,6 +315,9 @@ func (m *c12Mutant) wire() []byte {
 }
 
 func (m *c12Mutant) key() string {
+	if m.pair != "" {
+		return fmt.Sprintf("hostile-pair:%s:%s:%s", m.pair, m.val, m.role)
+	}
 	if m.amplify {
 		return fmt.Sprintf("hostile-amplify:%s:%s:%s", m.field, m.val, m.role)
 	}
@@ -521,7 +527,11 @@ func c12Mutate(s *c12Scn, role string, msgs []c12Msg, thorough bool) []*c12Mutan
 		case m.typ == "DATA" && (m.bin != nil || (s.cfg.binary && isInt)):
 			// binary chunk header
 			for _, v := range c12IntVals(m.payload) {
-				add("DATA-size", v.class, line("DATA", v.text), m.bin).must = true
+				mu := add("DATA-size", v.class, line("DATA", v.text), m.bin)
+				switch v.class { // the quick tier: the values on both sides of every bound the code knows
+				case "-1", "0", "2^31-1", "2^31", "2^33", "2^62", "2^63-1", "2^63", "orig*2", "orig+1", "nonnum", "empty":
+					mu.must = true
+				}
 			}
 			if len(m.bin) > 2 {
 				add("DATA-bin", "short-payload", line("DATA", m.payload), m.bin[:len(m.bin)/2])
@@ -1154,6 +1164,7 @@ func genHostile(c *ctx) {
 			if receiving {
 				all = append(all, c12ArchiveMutants(s, role, msgs)...)
 			}
+			all = append(all, c12PairMutants(s, role, msgs)...)
 		}
 	}
 	// the unmutated transcripts must replay cleanly, otherwise the replay itself is at fault
@@ -1188,8 +1199,17 @@ func genHostile(c *ctx) {
 		perm := c.rng.Perm(len(sel))
 		var pick []*c12Mutant
 		for _, m := range sel {
-			if m.must && !seenKey[m.key()+m.scn.name] {
-				seenKey[m.key()+m.scn.name] = true
+			dk := m.key() + m.scn.name
+			if strings.HasSuffix(m.field, "-line") || (m.pair != "" && !strings.Contains(m.pair, "HASH")) {
+				// the line splitters and the size/length pairs behave alike in every scenario: once per role, plus
+				// once per encoding for the pairs that involve a binary DATA header
+				dk = m.key()
+				if strings.Contains(m.pair, "DATA") {
+					dk += fmt.Sprint(m.scn.cfg.proto)
+				}
+			}
+			if m.must && !seenKey[dk] {
+				seenKey[dk] = true
 				pick = append(pick, m)
 			}
 		}
@@ -1278,4 +1298,74 @@ func genHostile(c *ctx) {
 			c.violate("hostile-unusable:"+kind[1], "after the failed transfer the client session no longer forwards input/output", detail)
 		}
 	}
+}
+
+// TWO numbers of the peer that bound each other, replaced TOGETHER by the same hostile value (so that a
+// check of one against the other passes): NAME size x HASH step, SIZE line x HASH step, SIZE x DATA
+// length, NUM x SIZE, CFG bufsize x DATA length.  The single-field mutants never get past such a check.
+func c12PairMutants(s *c12Scn, role string, msgs []c12Msg) []*c12Mutant {
+	idx := map[string]int{}
+	for i, m := range msgs {
+		l := m.label
+		if m.typ == "DATA" && (m.bin != nil || (s.cfg.binary && c12IntRe.MatchString(m.payload))) {
+			l = "DATA-size"
+		} else if m.typ == "DATA" {
+			continue
+		}
+		if l == "NAME" || l == "HASH" || l == "CFG" {
+			if js, err := decodeLinePayload(m.payload); err != nil || !bytes.HasPrefix(bytes.TrimSpace(js), []byte("{")) {
+				continue
+			}
+		}
+		if l == "HASH" {
+			if js, _ := decodeLinePayload(m.payload); !bytes.Contains(js, []byte(`"step"`)) || bytes.Contains(js, []byte(`"over":true`)) {
+				continue
+			}
+		}
+		if _, seen := idx[l]; !seen {
+			idx[l] = i
+		}
+	}
+	vals := []c12Val{{"2^62", "4611686018427387904"}, {"-1", "-1"}, {"2^31", "2147483648"}, {"2^33", "8589934592"}, {"2^63-1", "9223372036854775807"}, {"0", "0"}}
+	set := func(m c12Msg, key, v string) []byte {
+		if key == "" { // an integer line
+			return append([]byte("#"+m.typ+":"+v+"\n"), m.bin...)
+		}
+		nb, ok := c12RewriteMember(m.raw, m.typ, key, v)
+		if !ok {
+			return m.raw
+		}
+		return nb
+	}
+	var out []*c12Mutant
+	pair := func(name, la, ka, lb, kb string) {
+		ia, oka := idx[la]
+		ib, okb := idx[lb]
+		if !oka || !okb || ia == ib {
+			return
+		}
+		for _, v := range vals {
+			var b bytes.Buffer
+			for j, m := range msgs {
+				switch j {
+				case ia:
+					b.Write(set(m, ka, v.text))
+				case ib:
+					b.Write(set(m, kb, v.text))
+				default:
+					b.Write(m.raw)
+				}
+			}
+			out = append(out, &c12Mutant{scn: s, role: role, idx: ia, field: name, val: v.class, pair: name, whole: b.Bytes(),
+				must: v.class == "2^62" || v.class == "-1" || v.class == "2^31"})
+		}
+	}
+	pair("NAME-size-HASH-step", "NAME", "size", "HASH", "step")
+	pair("SIZE-HASH-step", "SIZE", "", "HASH", "step")
+	pair("SIZE-DATA-size", "SIZE", "", "DATA-size", "")
+	pair("NUM-SIZE", "NUM", "", "SIZE", "")
+	pair("NAME-size-SIZE", "NAME", "size", "SIZE", "")
+	pair("CFG-bufsize-DATA-size", "CFG", "bufsize", "DATA-size", "")
+	pair("SUCC-size-SUCC-final", "SUCC-size", "", "SUCC-final", "")
+	return out
 }
